@@ -154,7 +154,30 @@ class C18(Prop):
                         base, s, bad[0], (x[:2] if isinstance(x, list) else x), (y[:2] if isinstance(y, list) else y)),
                         dict(c, hashseeds=[base, s])))
                     break
-        return found[:5], {'evaluations': len(cases) * len(runs), 'distinct_nontrivial': len(cases),
+        # broker level: the same operation sequence (several same-side orders per asset, several portfolios) run twice
+        from .. import brokerlib as bl
+        bcases = []
+        for i in range(40 if tier == 'quick' else 400):
+            bc = bl.gen_broker_case(rng, stream=rng.choice(['valid', 'boundary']), exact=rng.random() < 0.5, n_ops=rng.randint(10, 40))
+            # pile up same-asset orders so that ties in (side, asset) occur
+            extra = []
+            pids = [op[1] for op in bc['ops'] if op[0] == 'create']
+            for op in bc['ops']:
+                extra.append(op)
+                if op[0] == 'submit' and op[1] in pids and rng.random() < 0.6:
+                    extra.append(['submit', rng.choice(pids), op[2], op[3] + rng.choice([1, 2, 5]) * (1 if op[3] >= 0 else -1)])
+            bc['ops'] = extra
+            bcases.append(bc)
+        r1 = implmod.run_impl('broker', bcases, hashseed='0', min_per_shard=2)
+        r2 = implmod.run_impl('broker', bcases, hashseed='0', min_per_shard=2)
+        for bc, x, y in zip(bcases, r1, r2):
+            if x != y:
+                steps = next((n for n, (p, q) in enumerate(zip(x.get('steps', []), y.get('steps', []))) if p != q), None)
+                found.append(('failure', 'the same broker operation sequence run twice gives different results (first difference at step %s: %s vs %s)' % (
+                    steps, (x.get('steps') or [None])[steps or 0] and x['steps'][steps or 0].get('fills'),
+                    (y.get('steps') or [None])[steps or 0] and y['steps'][steps or 0].get('fills')), bc))
+                break
+        return found[:5], {'evaluations': len(cases) * len(runs) + 2 * len(bcases), 'distinct_nontrivial': len(cases) + len(bcases),
                            'hash_seeds': list(runs), 'sessions_differing_across_seeds': differing}
 
     def shrink_candidates(self, c):
